@@ -484,6 +484,11 @@ func PoolTypestate(p *load.Program, rel string, res *report.RuleResult) {
 		}
 	}
 
+	if pa.isFreeTail(get) {
+		// the other representation of the same pool: the not yet handed out rest of the block instead of an offset
+		pa.checkFreeTail(res, key, ctor, get)
+		return
+	}
 	// ---- constructor: returns &Pool{block: make([]T, n)} with n the parameter, off zero
 	pa.checkCtor(res, key, ctor)
 
